@@ -922,12 +922,118 @@ def decode_twice(ctx, codec, data, pull, push, errors, cap, suffix_ok=False):
         ctx.violation("reencode-not-equivalent-" + codec, "decode(encode(v)) = %r differs from v = %r" % (v2, v1), case)
 
 
+
+def fuzz_task(ctx, runs, seconds, shard):
+    """coverage-guided byte-level fuzzing of the decoders (atheris / libFuzzer, vlib/fuzz_codec.py) under the decode_twice oracle"""
+    import glob
+    import os
+    import re
+    import shutil
+    import subprocess
+    import sys
+    import tempfile
+
+    from vlib import build, fuzz_codec
+    from vlib.harness import VERIF
+
+    if not os.path.isdir(os.path.join(VERIF, ".deps", "atheris")):
+        ctx.cls("fuzz:atheris-not-installed")
+        ctx.extra["skipped"] = "atheris is not installed (setup.sh installs it from the offline wheelhouse)"
+        return
+    root = build.shadow("plain", os.environ.get("VERIF_REPO"))
+    out = os.path.join(os.environ.get("VERIF_OUT") or os.path.join(VERIF, "out"), "fuzz")
+    os.makedirs(out, exist_ok=True)
+    work = tempfile.mkdtemp(prefix="codec-%d-" % shard, dir=out)
+    corpus = os.path.join(work, "corpus")
+    os.makedirs(corpus)
+    try:
+        # seeds: one valid message per TLS codec (from the strategies' simplest example), a transport parameter block, an ACK frame, two headers
+        from aioquic.buffer import Buffer
+
+        S = tls_strategies()
+        n = 0
+        for i, (name, t) in enumerate(fuzz_codec.TLS):
+            try:
+                push, pull = tls_codec(name)
+                b = Buffer(capacity=16384)
+                from hypothesis import strategies as st  # noqa
+
+                push(b, S[name].example() if False else _simplest(S[name]))
+                body = b.data[4:]
+                for sel in (i, i + len(fuzz_codec.TLS)):
+                    with open(os.path.join(corpus, "seed%d" % n), "wb") as f:
+                        f.write(bytes([sel]) + (body if sel == i else b.data[1:]))
+                    n += 1
+            except Exception:  # noqa - a seed less
+                pass
+        extra = [bytes([2 * len(fuzz_codec.TLS)]) + bytes.fromhex("0104800075300408ffffffffffffffff"), bytes([2 * len(fuzz_codec.TLS) + 1]) + bytes([5, 0, 1, 2, 1, 0]), bytes([2 * len(fuzz_codec.TLS) + 2, 8]) + bytes.fromhex("c000000001088394c8f03e5157080000449e00000002"), bytes([2 * len(fuzz_codec.TLS) + 2, 8]) + bytes.fromhex("408394c8f03e5157081234")]
+        for sd in extra:
+            with open(os.path.join(corpus, "seed%d" % n), "wb") as f:
+                f.write(sd)
+            n += 1
+        cmd = [sys.executable, "-B", os.path.join(VERIF, "vlib", "fuzz_codec.py"), root, corpus, "-seed=%d" % (ctx.seed * 137 + shard + 1), "-max_len=600", "-print_final_stats=1"]
+        cmd += ["-runs=%d" % runs] if runs else ["-max_total_time=%d" % seconds]
+        env = dict(os.environ, PYTHONHASHSEED="0")
+        p = subprocess.run(cmd, cwd=work, env=env, stdout=subprocess.PIPE, stderr=subprocess.STDOUT, timeout=(seconds or 60) + 600)
+        text = p.stdout.decode("utf-8", "replace")
+        m = re.search(r"stat::number_of_executed_units:\s*(\d+)", text) or re.search(r"Done (\d+) runs", text)
+        nexec = int(m.group(1)) if m else 0
+        ncorp = len(os.listdir(corpus))
+        ctx.evaluations += nexec
+        for fn in sorted(os.listdir(corpus))[:5000]:
+            ctx.nontrivial.add(hash(fn) & 0xFFFFFFFFFFFF)
+        ctx.classes["fuzz:executions"] += nexec
+        ctx.classes["fuzz:coverage-increasing-inputs"] += ncorp
+        ctx.extra["fuzz"] = {"executions": nexec, "corpus": ncorp, "exit": p.returncode}
+        for fn in sorted(os.listdir(corpus))[:3]:
+            with open(os.path.join(corpus, fn), "rb") as f:
+                d = fuzz_codec.decode(f.read())
+            if d is not None:
+                ctx.sample({"kind": "fuzz", "codec": d[0], "data": d[1][:64]})
+        crashes = sorted(glob.glob(os.path.join(work, "crash-*")))
+        if crashes:
+            with open(crashes[0], "rb") as f:
+                data = f.read()
+            d = fuzz_codec.decode(data)
+            vm = re.search(r"FuzzViolation: ([\w-]+): (.*)", text)
+            em = re.search(r"=== Uncaught Python exception: ===\n(\w+)", text)
+            if vm:
+                sig, detail = vm.group(1), vm.group(2)[:400]
+            else:
+                sig, detail = "decode-undocumented-error-%s-%s" % (d[0] if d else "?", em.group(1) if em else "Exception"), text[-1200:]
+            ctx.violation(sig, "coverage-guided fuzzing of the %s decoder: %s" % (d[0] if d else "?", detail), {"kind": "fuzz", "data": data}, soft=True)
+        elif p.returncode != 0:
+            raise RuntimeError("harness: the fuzzer exited %d without a crash file:\n%s" % (p.returncode, text[-2000:]))
+    finally:
+        shutil.rmtree(work, ignore_errors=True)
+
+
+def _simplest(strategy):
+    """the minimal example of a strategy, deterministically"""
+    from hypothesis import find
+
+    return find(strategy, lambda x: True)
+
+
 # ---------------------------------------------------------------- replay / plan
 
 
 def replay(ctx, case):
     k = case.get("kind")
     ctx.case(None, True)
+    if k == "fuzz":
+        from vlib import fuzz_codec
+
+        d = fuzz_codec.decode(bytes(case["data"]))
+        if d is not None:
+            try:
+                fuzz_codec.run_one(*d)
+            except fuzz_codec.FuzzViolation as e:
+                sig, _, text = str(e).partition(": ")
+                ctx.violation(sig, text, case)
+            except Exception as e:  # noqa
+                ctx.violation("decode-undocumented-error-%s-%s" % (d[0], type(e).__name__), repr(e), case)
+        return
     if k == "ack":
         ack_check(ctx, [tuple(x) for x in case["ranges"]], case["delay"])
     elif k == "bytes":
@@ -980,10 +1086,17 @@ def plan(tier, seed):
         t.append(("tls-messages-%d" % s, {"fn": "tls", "examples": 700 if q else 25000, "shard": s}))
     for s in range(3):
         t.append(("arbitrary-bytes-%d" % s, {"fn": "arb", "examples": 3000 if q else 80000, "shard": s}))
+    if q:
+        t.append(("atheris-codec-0", {"fn": "fuzz", "runs": 60000, "seconds": 0, "shard": 0}))
+    else:
+        for sh in range(4):
+            t.append(("atheris-codec-%d" % sh, {"fn": "fuzz", "runs": 0, "seconds": 600, "shard": sh}))
     return t
 
 
 def run_task(ctx, name, fn, **kw):
+    if fn == "fuzz":
+        return fuzz_task(ctx, kw["runs"], kw["seconds"], kw["shard"])
     if fn == "ints":
         ints(ctx, kw["extra"])
     elif fn == "acks":
